@@ -407,10 +407,11 @@ Definition push (all : list (list V)) (mu : list V -> Qc) (P : list V -> list V 
 Fixpoint push_n (all : list (list V)) (mu : list V -> Qc) (P : list V -> list V -> Qc) (n : nat) : list V -> Qc :=
   match n with O => mu | S n' => push all (push_n all mu P n') P end.
 
-Fixpoint push_sweep (all : list (list V)) (mu : list V -> Qc) (Ps : list (list V -> list V -> Qc)) (ns : list nat)
+(* a sweep: block kernels in order, each applied its configured number of times *)
+Fixpoint push_sweep (all : list (list V)) (mu : list V -> Qc) (Pns : list ((list V -> list V -> Qc) * nat))
   : list V -> Qc :=
-  match Ps, ns with
-  | P :: Ps', n :: ns' => push_sweep all (push_n all mu P n) Ps' ns'
-  | _, _ => mu
+  match Pns with
+  | [] => mu
+  | (P, n) :: r => push_sweep all (push_n all mu P n) r
   end.
 End Finite.
